@@ -28,7 +28,7 @@ CLAIMED.update({
             "capacities and spill threshold share their parameters; a chunk is queued still loaded only through the below-threshold edge of the window test; every resolution callback balances the pending gauge; the persistent gauges move at most once per chunk event and only with the files. Byte equality and the numeric size bound are not decided.", "§4 C03"),
     "C04": ("static result-use (byte-count), must-precede and failure-propagation (path-sensitive nil/non-nil error facts) rules over the persistence call tree",
             "Every write/read syscall of the persistence call tree has its byte count consumed in a loop or short-count test, success is only returned after a checked close, the file is created under a temporary name that no chunk-id matcher accepts "
-            "(evaluated on the constants) and renamed only after write+close, saved-marking only after a nil-error write, zero-length and unmatched files are never forwarded; no failed call of the persistence tree can be reported as success (path-sensitive in nil/non-nil error facts: shadowed, overwritten or discarded errors). What the kernel does and fsync ordering are assumed.", "§4 C04"),
+            "(evaluated on the constants) and renamed only after write+close, saved-marking only after a nil-error write, zero-length and unmatched files are never forwarded; no failed call of the persistence tree can be reported as success (path-sensitive in nil/non-nil error facts: shadowed, overwritten or discarded errors); the queue directory handle is stored only by the operator's constructor and the operator of a live buffer is closed only by the chunk manager's Close (no error can switch loading / removing off for the intact chunks). What the kernel does and fsync ordering are assumed.", "§4 C04"),
 })
 
 CLAIMED.update({
@@ -37,7 +37,7 @@ CLAIMED.update({
             "resend precedes new input, recovery is sorted and precedes feeder/worker start, chunk ids only come from the generator (counters under its mutex, fixed-width format). Wall-clock monotonicity and the interleavings are not decided.", "§4 C05"),
     "C09": ("static exactly-once path enumeration and must-pass (cleaner between cut and store) over SSA; index safety by the C07 engine",
             "Accounting and truncation clauses of the parser on every path: one of pass/drop per message after RawLength is set, nil exactly on drop paths with one release, overflow counted and UTF-8 clean-up on every path that cuts the message, "
-            "one release on input-stage drops. Header substring faithfulness is value-level and not decided.", "§4 C09"),
+            "one release on input-stage drops; the record's private copy is the whole line; a token split at a delimiter index consumes exactly the delimiter (remainder = token end + 1, proved by the facts engine), so no byte of the line is lost between two header tokens or in front of the message; the cleaner is delegated to the library's ToValidUTF8. Which substring is which header field beyond that is value-level and not decided.", "§4 C09"),
     "C19": ("static exactly-once path enumeration with return-correlated summaries; must-call for counter flushes; operand provenance",
             "Every counter update is tied to the event it describes on all paths (parser, pipeline worker, buffer, client), batched counters are flushed after the last count at stop/close/flush, the metric key set is selected before transforms count; the persistent-chunk gauges move at most once per chunk event. "
             "One known finding (input-stage drops are not accounted). The balance equations as numbers across goroutines are not decided.", "§4 C19"),
@@ -46,7 +46,7 @@ CLAIMED.update({
 CLAIMED.update({
     "C17": ("static lock-held must-dataflow (guarded-by), must-precede ordering incl. LIFO of defers, who-may-write",
             "Lock discipline and ordering of the reload machinery on all paths: every access to downstream / slots / addresses every dereference of a sink's slot pointer and every call on a sink value taken from a slot is under the RB-mutex (writes of downstream under the write lock); "
-            "reload validates before locking, fails without side effects (what it changed in the wrapper before the new configuration was known to be good — a state flag, a marker — is changed back on every path of the failure branch), and under the lock closes sinks, shuts down, renews, re-creates sinks; the loader is swapped only in the completion closure handed out after parse+compatibility succeeded; "
+            "reload validates before locking, fails without side effects (what it changed in the wrapper before the new configuration was known to be good — a state flag, a marker — is changed back on every path of the failure branch), and under the lock closes sinks, shuts down, renews, re-creates sinks; the loader is swapped only in the completion closure handed out after parse+compatibility succeeded; every object the closure carries over from the old loader (the record allocator shared with the inputs) was built from configuration sections that the compatibility check reads from both files; "
             "a connection's sink is closed before its descriptor (slot index) is released (closer signal or direct Close); element addresses kept by sinks refer to a container that never moves; the client number given to NewSink is the connection's socket descriptor (unique in the process), not a per-listener number. The interleavings themselves are not explored (not a linearizability argument).", "§4 C17"),
 })
 
@@ -66,12 +66,12 @@ CLAIMED.update({
 CLAIMED.update({
     "C11": ("static exactly-once path enumeration, must-precede (close before read, copy before reset), sibling comparison of the two Chunker implementations, constant agreement of writer/reader suffix tables",
             "Structure of the chunk maker on all paths: one write per stream into the chunk current after roll-over, flush resets, records counted exactly when written, compressor closed before the buffer is read, chunk data is a copy, "
-            "id/option/count come from the same intermediate chunk, the id suffix written equals the suffix matched, constructor-wired encoder/buffer pairs are never re-bound. Well-formedness of the encoded bytes and the limits as numbers are not decided.", "§4 C11"),
+            "id/option/count come from the same intermediate chunk, the id suffix written equals the suffix matched, constructor-wired encoder/buffer pairs are never re-bound, every hand-written 4-bit / 16-bit msgpack header of the chunk framing carries a count proved to fit its width, the compressor handed to a chunk is the library's writer. Well-formedness of the encoded bytes and the limits as numbers are not decided.", "§4 C11"),
     "C12": ("static reset-exhaustiveness over the struct's fields (enumerated from types), use-after-release path rule, backward taint from long-lived sinks to transient-string sources with deep-copy sanitizers, who-may-write",
             "Every LogRecord field is cleared on the recycle path or assigned by every producer; no use after the final release; transient strings reach long-lived maps/labels/constructors only through a deep copy; scratch buffers do not escape without a copy; no store of a record-transient string into any long-lived field, map or global of the per-record run-time set without a copy; "
             "serialization and rewriting never store into a record. sync.Pool behaviour and sampling state are not decided.", "§4 C12"),
     "C15": ("static control-flow shape rules over the transform chain and container transforms; exactly-once enumeration of the sampling bookkeeping",
-            "NARROW claim: only the composition and bookkeeping clauses (first DROP wins; containers return their nested chain's result; non-filtering transforms always PASS; truncate's cut uses the UTF-8 cleaner under the documented guard; drop's counters once per record; no cross-record state other than key-determined caches, whole-input memos and reviewed items; value matchers and extract delegate the match decision to the library on every path). "
+            "NARROW claim: only the composition and bookkeeping clauses (first DROP wins; containers return their nested chain's result; non-filtering transforms always PASS; truncate's cut uses the UTF-8 cleaner under the documented guard; drop's counters once per record; no cross-record state other than key-determined caches, whole-input memos and reviewed items; value matchers and extract delegate the match decision to the library on every path; the UTF-8 cleaner returns only what passed the library's ToValidUTF8). "
             "The per-value results of transforms and matchers against a reference interpreter are value-level and are not decided by this family.", "§4 C15"),
 })
 
